@@ -38,7 +38,7 @@ def gen_cases(tier, seed):
         for kind in ("uniform", "random", "graded"):
             cases.append({"kind": "q", "cfg": {"degree": p, "ncells": p + 2, "periodic": True, "kind": kind, "fast": False, "uniform_flag": False, "seed": 30 + p}, "seed": 30 + p})
             cases.append({"kind": "q", "cfg": {"degree": p, "ncells": p, "periodic": True, "kind": kind, "fast": False, "uniform_flag": kind == "uniform", "seed": 60 + p}, "seed": 60 + p})
-    for k in range(300 if tier == "quick" else 12000):
+    for k in range(300 if tier == "quick" else 60000):
         cfg = splgen.random_cfg(rng, max_degree=5)
         if cfg["fast"] and not cfg["periodic"] and rng.random() < 0.2:
             cfg["ncells"] = rng.choice([1, 2, 3])
